@@ -1,7 +1,7 @@
 (* Driver.v — one entry point for the extracted model: a request line in, a
    response line out.  Both are character lists ([list N]). *)
 From Coq Require Import List NArith ZArith String.
-From IonV Require Import Base.Wire Drv.DrvBits Drv.DrvBin Drv.DrvRead Drv.DrvSymtab Drv.DrvDecimal Drv.DrvText Drv.DrvSpecText Drv.DrvTextRead Drv.DrvMarshal Drv.DrvCli Drv.DrvTimestamp Drv.DrvSymctx.
+From IonV Require Import Base.Wire Drv.DrvBits Drv.DrvBin Drv.DrvRead Drv.DrvSymtab Drv.DrvDecimal Drv.DrvText Drv.DrvSpecText Drv.DrvTextRead Drv.DrvMarshal Drv.DrvCli Drv.DrvTimestamp Drv.DrvSymctx Drv.DrvBufio.
 Import ListNotations.
 Open Scope N_scope.
 
@@ -15,5 +15,5 @@ Fixpoint first_some (fs : list (list N -> list (list N) -> option (list N)))
 Definition run_line (line : list N) : list N :=
   match tokens line with
   | [] => bad_input
-  | cmd :: args => first_some [drv_bits; drv_bin; drv_read; drv_symtab; drv_decimal; drv_text; drv_spectext; drv_textread; drv_marshal; drv_cli; drv_timestamp; drv_symctx] cmd args
+  | cmd :: args => first_some [drv_bits; drv_bin; drv_read; drv_symtab; drv_decimal; drv_text; drv_spectext; drv_textread; drv_marshal; drv_cli; drv_timestamp; drv_symctx; drv_bufio] cmd args
   end.
